@@ -32,9 +32,13 @@ var solvers = []solverSpec{
 		return []string{"cvc5", fmt.Sprintf("--tlimit=%d", t*1000), "--strings-exp", f}
 	}},
 	{"z3", func(f string, t int) []string { return []string{"z3", fmt.Sprintf("-T:%d", t), f} }},
+	// enumerative instantiation: decides many alternating-quantifier goals the default modes give up on
+	{"cvc5-enum", func(f string, t int) []string {
+		return []string{"cvc5", fmt.Sprintf("--tlimit=%d", t*1000), "--strings-exp", "--enum-inst", f}
+	}},
 }
 
-var procSem = make(chan struct{}, 16)
+var procSem = make(chan struct{}, 20)
 
 func runSolver(ctx context.Context, sp solverSpec, file string, timeoutS int) (status, out string) {
 	procSem <- struct{}{}
@@ -65,14 +69,24 @@ func runSolver(ctx context.Context, sp solverSpec, file string, timeoutS int) (s
 	return "error", out
 }
 
-// solve races the solvers on one script.
+// solve decides one script: first a short solo attempt by z3-new (most obligations are easy,
+// and racing four solvers on each would only steal cores from the hard ones), then a race.
 func solve(workDir, name, script string, timeoutS int) *SolveResult {
 	file := filepath.Join(workDir, name+".smt2")
 	_ = os.WriteFile(file, []byte(script), 0o644)
 	res := &SolveResult{Status: "unknown", Bytes: len(script), Outputs: map[string]string{}}
+	start := time.Now()
+	quick := 3
+	if timeoutS < quick {
+		quick = timeoutS
+	}
+	if st, _ := runSolver(context.Background(), solvers[0], file, quick); st == "unsat" || st == "sat" {
+		res.Status, res.Solver = st, solvers[0].name
+		res.Ms = time.Since(start).Milliseconds()
+		return res
+	}
 	ctx, cancel := context.WithCancel(context.Background())
 	defer cancel()
-	start := time.Now()
 	type ans struct {
 		solver, status, out string
 	}
@@ -90,7 +104,6 @@ func solve(workDir, name, script string, timeoutS int) *SolveResult {
 			res.Status, res.Solver = a.status, a.solver
 			res.Ms = time.Since(start).Milliseconds()
 			cancel()
-			// drain
 			go func(n int) {
 				for j := 0; j < n; j++ {
 					<-ch
@@ -111,7 +124,7 @@ func solve(workDir, name, script string, timeoutS int) *SolveResult {
 // dischargeAll solves all obligations in parallel.
 func dischargeAll(workDir string, obls []*Obligation, timeoutS int) {
 	var wg sync.WaitGroup
-	sem := make(chan struct{}, 8)
+	sem := make(chan struct{}, 12)
 	for i, o := range obls {
 		if o.Goal.S == "true" && !o.Cover {
 			o.Result = &SolveResult{Status: "unsat", Solver: "syntactic"}
@@ -126,6 +139,16 @@ func dischargeAll(workDir string, obls []*Obligation, timeoutS int) {
 		go func(i int, o *Obligation) {
 			defer wg.Done()
 			defer func() { <-sem }()
+			if o.Cover {
+				// vacuity guard: the full context must not be refutable; if the solvers cannot
+				// settle that, the context without its quantified assumptions must be satisfiable
+				full := solve(workDir, fmt.Sprintf("o%04df", i), o.vc.scriptOpt(o.Upto, o.Path, o.Goal, false, false), timeoutS/3+1)
+				if full.Status == "unsat" || full.Status == "sat" {
+					o.Result = full
+					o.Result.Script = filepath.Join(workDir, fmt.Sprintf("o%04df.smt2", i))
+					return
+				}
+			}
 			script := o.vc.scriptOpt(o.Upto, o.Path, o.Goal, false, o.Cover)
 			o.Result = solve(workDir, fmt.Sprintf("o%04d", i), script, timeoutS)
 			o.Result.Script = filepath.Join(workDir, fmt.Sprintf("o%04d.smt2", i))
